@@ -36,6 +36,7 @@ def check(repo: Repo, rep, tier):
     from .C03 import element_parens
 
     element_parens(repo, rep)
+    kwarg_position(repo, rep)
 
 
 SESSION_END = ("_get_changes", "_new_code")
@@ -681,10 +682,27 @@ def nested_drop(repo: Repo, rep):
                 # the set handed over is built from the Replace/Delete changes
                 ok_set = False
                 if len(e.args) > 1 and isinstance(e.args[1], ast.Name):
-                    for d in reaching_defs(cfg, c, e.args[1].id):
+                    good_defs = []
+                    ds_ = reaching_defs(cfg, c, e.args[1].id)
+                    for d in ds_:
                         dv = def_value(d, e.args[1].id)
-                        if dv is not None and "Replace" in norm(dv) and "Delete" in norm(dv) and ".node" in norm(dv):
-                            ok_set = True
+                        # built from the Replace/Delete changes of the very list this call applies (the function's own parameter)
+                        if dv is not None and "Replace" in norm(dv) and "Delete" in norm(dv) and ".node" in norm(dv) and any(isinstance(g_, ast.comprehension) and norm(g_.iter) == f.params[0] for g_ in ast.walk(dv)):
+                            good_defs.append(d)
+                    from ..cfg import nodes_dominate as _nd
+
+                    # every definition qualifies and one of them lies on every path (a parameter / default that by-passes them
+                    # would carry a set computed from some other list of changes)
+                    ok_set = bool(good_defs) and len(good_defs) == len(ds_) and _nd(cfg, good_defs, c) and e.args[1].id not in f.params
+                    if good_defs and not ok_set:
+                        rep.violation(
+                            "R-NESTED-DROP",
+                            f,
+                            e,
+                            f"the set of removed nodes `{e.args[1].id}` can come from outside apply_all (a parameter / an earlier computation) instead of the list of changes this call applies: "
+                            "a change of a category that is NOT applied (an unapproved update of the parent) then hides the approved change of a nested snapshot()",
+                            construct="removed-set-foreign",
+                        )
                 if ok_set:
                     guards.append((c, "F"))
     from ..cfg import edges_dominate
@@ -904,3 +922,45 @@ def rel_path_total(repo: Repo, rep):
     rep.count("relative_to_calls", n)
     if n == 0:
         rep.ok("R-REL-PATH-TOTAL", repo.func("pytest_plugin.py::pytest_sessionfinish"), None, "no relative_to() in the plugin", site="src/inline_snapshot/pytest_plugin.py: relative_to")
+
+
+def kwarg_position(repo: Repo, rep):
+    rep.rule(
+        "R-KWARG-POSITION",
+        "producer/consumer agreement on CallArg.arg_pos: apply_all uses it as an index into ALL arguments of the call (`parent.args + keyword values`); "
+        "so the counter from which GenericCallAdapter.assign takes the position of an inserted *keyword* argument starts at the number of positional "
+        "arguments of the source call (`len(<node>.args)`), not at 0 - unless apply_all adds that offset itself.  Otherwise `A(1, c=3)` that gains `b` "
+        "is rewritten to `A(b = 2, 1, c=3)` (SyntaxError at session end, nothing in the session is written)",
+    )
+    ap = repo.func("_change.py::apply_all")
+    consumer_offsets = any(isinstance(x, ast.BinOp) and isinstance(x.op, ast.Add) and "arg_pos" in norm(x) and ".args" in norm(x) for x in body_nodes(ap.node))
+    combined = any(isinstance(x, ast.BinOp) and isinstance(x.op, ast.Add) and ".args" in norm(x.left) and "keywords" in norm(x.right) for x in body_nodes(ap.node))
+    n = 0
+    for s in emission_sites(repo):
+        if s.kind != "CallArg":
+            continue
+        nm = s.args.get("arg_name")
+        pos = s.args.get("arg_pos")
+        if nm is None or (isinstance(nm, ast.Constant) and nm.value is None) or pos is None:
+            continue
+        if not isinstance(pos, ast.Name):
+            continue
+        n += 1
+        inits = [def_value(d, pos.id) for d in reaching_defs(s.cfg, s.node, pos.id)]
+        inits = [v for v in inits if v is not None]
+        from ..defuse import defs_of
+
+        all_inits = [def_value(d, pos.id) for d in defs_of(s.cfg, pos.id) if d.kind == "stmt" and isinstance(d.ast, ast.Assign)]
+        starts_at_args = any(v is not None and ".args" in norm(v) for v in all_inits)
+        if consumer_offsets or not combined or starts_at_args:
+            rep.ok("R-KWARG-POSITION", s.func, s.call, "keyword insert position counts the positional arguments too")
+        else:
+            rep.violation(
+                "R-KWARG-POSITION",
+                s.func,
+                s.call,
+                f"{s.func.qualname} numbers an inserted keyword argument from `{' / '.join(sorted({norm(v) for v in all_inits if v is not None})) or '?'}` while apply_all indexes positional and keyword arguments together: "
+                "in a call with positional arguments the new keyword is written in front of them (`A(b = 2, 1, c=3)`, SyntaxError at session end)",
+                construct=f"{s.func.qualname}:kw-position",
+            )
+    rep.floor("R-KWARG-POSITION", "keyword CallArg emission sites", n, 1)
